@@ -21,9 +21,12 @@ func v06Intent(env *vEnv, valid bool, n int) []*types.TransactionIntent {
 	var upd *sdcpb.Update
 	if valid {
 		upd = &sdcpb.Update{Path: vPath(vPE("interface", "name", "lo1"), vPE("mtu")), Value: vUintTV(uint64(1500 + n))}
-	} else {
+	} else if verifrt.Choice("invalidClass", 2) == 0 {
 		// out of range for uint32 "10..300 | 5000..5020 | 9999"
 		upd = &sdcpb.Update{Path: vPath(vPE("rangetestunsigned")), Value: vUintTV(1000)}
+	} else {
+		// list entry without its mandatory leaf "mandato"
+		upd = &sdcpb.Update{Path: vPath(vPE("doublekey", "key1", "k1", "key2", "k2"), vPE("cont"), vPE("value1")), Value: vStrTV("x")}
 	}
 	ti, err := env.ds.SdcpbTransactionIntentToInternalTI(context.Background(), &sdcpb.TransactionIntent{Intent: "A", Priority: 10, Update: []*sdcpb.Update{upd}})
 	if err != nil {
@@ -41,7 +44,7 @@ func VerifTxnSequence() {
 	undetermined := false // a Set ended without applying anything: may hold the datastore until the timeout at most
 	txn := 0
 	for i := 0; i < n; i++ {
-		op := verifrt.Choice("op", 7)
+		op := verifrt.Choice("op", 8)
 		setsBefore := env.tgt.Sets
 		switch op {
 		case 0, 1, 2, 3: // Set: valid | invalid | dry-run | device-error
@@ -109,10 +112,14 @@ func VerifTxnSequence() {
 				verifrt.Assert(env.tgt.Sets == setsBefore+1, "C06-cancel-rolls-back-once")
 			}
 			open = ""
-		case 6: // wait for the transaction timeout
+		case 6, 7: // wait for the transaction timeout (7: the device is unreachable when the rollback is sent)
 			verifrt.AwaitQuiescence()
+			if op == 7 {
+				env.tgt.FailSet = env.tgt.Sets + 1
+			}
 			verifrt.Advance(v06Timeout + 200*time.Millisecond)
 			verifrt.AwaitQuiescence()
+			env.tgt.FailSet = 0
 			verifrt.Reach("waited")
 			if open != "" {
 				verifrt.Assert(env.tgt.Sets == setsBefore+1, "C06-timeout-rolls-back-open-transaction-once")
@@ -168,4 +175,34 @@ func VerifTxnConfirmWhileSetWaits() {
 	verifrt.AwaitQuiescence()
 	verifrt.Assert(done2, "C16-waiting-set-returns")
 	_ = err2
+}
+
+// VerifTimeoutWhileSetWaits (C05/C16): transaction t1 is open; a second
+// TransactionSet t2 waits for the datastore for longer than t1's timeout.
+// When t1's timer expires during the wait, t1 must be rolled back (exactly
+// once) before t2 is applied on top of it.
+func VerifTimeoutWhileSetWaits() {
+	env := vNewEnv()
+	rsp, err := env.ds.TransactionSet(context.Background(), "t1", v06Intent(env, true, 1), nil, v06Timeout, false)
+	verifrt.Assert(err == nil && !vHasErrors(rsp), "C16-first-set-accepted")
+	verifrt.Assert(env.tgt.Sets == 1, "C16-first-set-applied")
+	var err2 error
+	done2 := false
+	go func() {
+		ctx, cancel := context.WithTimeout(context.Background(), 3*v06Timeout)
+		defer cancel()
+		_, err2 = env.ds.TransactionSet(ctx, "t2", v06Intent(env, true, 2), nil, v06Timeout, false)
+		done2 = true
+	}()
+	verifrt.AwaitQuiescence() // t2 sleeps in its registration loop
+	verifrt.Reach("second-set-waiting")
+	verifrt.Advance(v06Timeout + 100*time.Millisecond) // t1 expires while t2 waits
+	verifrt.AwaitQuiescence()
+	verifrt.Advance(300 * time.Millisecond) // t2's next registration attempt
+	verifrt.AwaitQuiescence()
+	verifrt.Reach("after-expiry")
+	verifrt.Assert(done2 && err2 == nil, "C16-waiting-set-proceeds-after-expiry")
+	// t1's rollback must have been sent before t2's payload: three Set calls in total,
+	// the second one removing what t1 created
+	verifrt.Assert(env.tgt.Sets == 3, "C05-expired-transaction-rolled-back-before-next-is-applied")
 }
